@@ -231,14 +231,25 @@ def check_transports(prog, run):
     def t2():
         dev = make_scsi_device(prog)
         cmd, cdb, dout, din = marker_cmd(prog, Sym.opaque("outlen"), Sym.opaque("inlen"))
+        raw = I.decide("the caller asks for raw sense (en_raw_sense=True)", None, _F())
         try:
-            I.call_function(ex, [dev, cmd], {}, None, _F())
+            I.call_function(ex, [dev, cmd], {"en_raw_sense": True} if raw else {}, None, _F())
         except PyRaise:
             pass
         calls = [e for e in I.events if e["kind"] == "external-call" and e["name"] == "sgio.execute"]
         results.append((calls, cdb, dout, din, dev))
+        after.append((list(cdb.cells) if cdb.cells is not None else None, cmd.attrs.get("_cdb") is cdb, cmd.attrs.get("_dataout") is dout,
+                      cmd.attrs.get("_datain") is din))
         return None
-    I.explore(t2, max_paths=32)
+    after = []
+    I.explore(t2, max_paths=64)
+    # executing a command leaves the command's own CDB as it was built (6 bytes here) and its buffers the same objects
+    if all(a[0] == [0] * 6 and a[1] and a[2] and a[3] for a in after) and after:
+        run.ok("transport-leaves-command-intact", "SCSIDevice.execute")
+    else:
+        run.violation("transport-leaves-command-intact", "SCSIDevice.execute",
+                      "after execute() the command's CDB / buffers are no longer what was built (a 6-byte CDB became %r)"
+                      % ([a[0] for a in after if a[0] != [0] * 6][:1],), file, ex.node.lineno, ex.qualname)
     n_calls = 0
     for calls, cdb, dout, din, dev in results:
         for c in calls:
@@ -260,19 +271,23 @@ def check_transports(prog, run):
     nz_out, nz_in = Sym.opaque("outlen", nonzero=True), Sym.opaque("inlen", nonzero=True)
     cases = [("none", 0, 0, "iscsi.SCSI_XFER_NONE", 0), ("in", 0, nz_in, "iscsi.SCSI_XFER_READ", nz_in),
              ("out", nz_out, 0, "iscsi.SCSI_XFER_WRITE", nz_out), ("both", nz_out, nz_in, "iscsi.SCSI_XFER_WRITE", nz_out)]
+    after2 = []
     for label, ol, il, want_dir, want_len in cases:
         res2 = []
 
-        def t3(ol=ol, il=il):
+        def t3(ol=ol, il=il, label=label):
             dev = make_iscsi_device(prog)
             cmd, cdb, dout, din = marker_cmd(prog, ol, il)
+            raw = I.decide("the caller asks for raw sense (en_raw_sense=True)", None, _F())
             try:
-                I.call_function(ex2, [dev, cmd], {}, None, _F())
+                I.call_function(ex2, [dev, cmd], {"en_raw_sense": True} if raw else {}, None, _F())
             except PyRaise:
                 pass
             res2.append(([e for e in I.events if e["kind"] == "external-call"], cdb, dout, din))
+            after2.append((label, list(cdb.cells) if cdb.cells is not None else None, cmd.attrs.get("_cdb") is cdb,
+                           cmd.attrs.get("_dataout") is dout, cmd.attrs.get("_datain") is din))
             return None
-        I.explore(t3, max_paths=64)
+        I.explore(t3, max_paths=128)
         if not res2:
             raise AnalysisError("no-paths", "ISCSIDevice.execute")
         calls, cdb, dout, din = res2[0]
@@ -292,4 +307,11 @@ def check_transports(prog, run):
             run.violation("transport-passes-buffers", cname,
                           "iscsi.Task%r / command%r; expected Task(cmd.cdb, %s, %s) and command(lun, task, cmd.dataout, cmd.datain)"
                           % (tuple(ta), tuple(ca), want_dir, show(want_len)), file2, task[0]["node"].lineno, ex2.qualname)
+    bad2 = [a for a in after2 if not (a[1] == [0] * 6 and a[2] and a[3] and a[4])]
+    if after2 and not bad2:
+        run.ok("transport-leaves-command-intact", "ISCSIDevice.execute")
+    else:
+        run.violation("transport-leaves-command-intact", "ISCSIDevice.execute",
+                      "after execute() the command's CDB / buffers are no longer what was built: in the %s-data case a 6-byte CDB became %r"
+                      % (bad2[0][0] if bad2 else "?", bad2[0][1] if bad2 else None), file2, ex2.node.lineno, ex2.qualname)
     run.count("transports", 2)
